@@ -1,6 +1,7 @@
 package main
 
 import (
+	"os"
 	"fmt"
 	"go/constant"
 	"go/token"
@@ -1357,11 +1358,34 @@ func (g *Gen) calleeWriteHeaps(c *ssa.CallCommon) ([]string, bool) {
 	if ci.ct.ModAll {
 		return nil, true
 	}
+	// heaps written by the function values the callee calls back (invokes)
+	var out []string
+	if len(ci.ct.Invokes) > 0 {
+		names, _ := calleeParams(ci, c)
+		for _, pn := range ci.ct.Invokes {
+			for i, n := range names {
+				if n != pn {
+					continue
+				}
+				k := i
+				if ci.invoke {
+					k = i - 1
+				}
+				if k < 0 || k >= len(c.Args) {
+					return nil, true
+				}
+				hs, all := g.calleeWriteHeaps(&ssa.CallCommon{Value: c.Args[k]})
+				if all {
+					return nil, true
+				}
+				out = append(out, hs...)
+			}
+		}
+	}
 	if ci.ct.Pure && len(ci.ct.Modifies) == 0 {
-		return nil, false
+		return out, false
 	}
 	// translate the modifies clauses statically: only heap names matter
-	var out []string
 	env := g.calleeEnvStatic(ci, c)
 	for _, m := range ci.ct.Modifies {
 		func() {
@@ -1652,6 +1676,40 @@ func (g *Gen) call(c *ssa.CallCommon, pos token.Pos, isGo bool) Val {
 			g.assumed = appendUniq(g.assumed, "assumed postcondition ["+en.Label+"] of "+ci.key+": "+en.Src)
 		}
 		g.assume(post.boolOf(en.E))
+	}
+	// invokes: apply the contract of each function value the callee calls back
+	for _, pn := range ct.Invokes {
+		if os.Getenv("TSVC_DEBUG") != "" {
+			fmt.Fprintln(os.Stderr, "invokes", sk, pn, names, len(c.Args))
+		}
+		for i, n := range names {
+			if n != pn {
+				continue
+			}
+			k := i
+			if ci.invoke || ci.sig.Recv() != nil || (ci.fn != nil && ci.fn.Signature.Recv() != nil) {
+				k = i - 1 // c.Args excludes the receiver of an invoke; for static methods the receiver is c.Args[0]
+				if !ci.invoke {
+					k = i
+				}
+			}
+			if k < 0 || k >= len(c.Args) {
+				continue
+			}
+			fv := c.Args[k]
+			sig, ok := fv.Type().Underlying().(*types.Signature)
+			if !ok {
+				continue
+			}
+			syn := &ssa.CallCommon{Value: fv}
+			for q := 0; q < sig.Params().Len(); q++ {
+				ph := new(ssa.Parameter)
+				g.vals[ph] = g.freshVal("cbarg", sig.Params().At(q).Type())
+				g.assume(g.typeInv(g.vals[ph], g.st))
+				syn.Args = append(syn.Args, ph)
+			}
+			g.call(syn, pos, false)
+		}
 	}
 	return r
 }
